@@ -377,7 +377,10 @@ def _df_reindex(ts, index, method = None, limit = None):
         if is_int(index):
             raise ValueError('trying to reindex dataframe %s using numpy interval length %i'%(ts, index))
         if len(methods) and methods[0] in ['backfill', 'bfill', 'pad', 'ffill']:
-            res = _nona(ts).reindex(index, method = methods[0], limit = limit)
+            if is_df(ts) and ts.shape[1] > 1: # as-of join column by column: each column has its own non-nan observations
+                res = pd.concat([_nona(ts.iloc[:, i]).reindex(index, method = methods[0], limit = limit) for i in range(ts.shape[1])], axis=1)
+            else:
+                res = _nona(ts).reindex(index, method = methods[0], limit = limit)
             res = _df_fillna(res, method = methods[1:], limit = limit)
         else:
             res = ts.reindex(index)
